@@ -267,6 +267,43 @@ theorem one_table_per_level (ic : ICore) (s : FState) (c : Int) (f : FH.FH) (al 
             simpa using this
           · simp at hks
 
+/-- (shared with C03) whenever `predict` answers with intervals, the forecast is the one plain `predict` gives — so
+it carries the labels C03 proves for it — and EVERY interval table carries exactly the forecast's labels -/
+theorem interval_tables_labelled_like_forecast (ic : ICore) (mode : FhMode) (s : FState)
+    (fh : Option FhArg) (a : IArgs) (p : Series) (ts : List (List IRow)) (b : Bool)
+    (h : (predictI ic mode s fh a).2 = .withInt p ts b) :
+    (predict ic.toCore mode s fh).2 = .series p ∧ ∀ t ∈ ts, t.map (·.1) = p.labels := by
+  refine ⟨(point_forecasts_independent_of_interval_arguments ic mode s fh a p ts b h).1, ?_⟩
+  unfold predictI at h
+  cases hf : s.fitted with
+  | false => simp [hf] at h
+  | true =>
+    simp only [hf, Bool.not_true, Bool.false_eq_true, ↓reduceIte] at h
+    cases h1 : fhObjOf fh with
+    | error e => simp [h1] at h
+    | ok fo =>
+      simp only [h1] at h
+      cases h2 : setFh mode s fo with
+      | error e => simp [h2] at h
+      | ok fh' =>
+        simp only [h2, predictStoredI] at h
+        cases fh' with
+        | none => simp at h
+        | some f =>
+          cases hc : s.cutoff with
+          | none => simp [hc] at h
+          | some c =>
+            simp only [hc] at h
+            obtain ⟨rpi, al⟩ := a
+            cases rpi with
+            | false => simp [atI] at h
+            | true =>
+              obtain ⟨ks, _, hts, _, _⟩ := one_table_per_level ic _ c f al p ts b h
+              intro t ht
+              rw [hts] at ht
+              obtain ⟨k, _, rfl⟩ := List.mem_map.mp ht
+              exact (interval_rows_follow_forecasts ic c k p).1
+
 /-- `update_predict` refuses prediction intervals before it reads or changes anything -/
 theorem update_predict_refuses_intervals_untouched (ic : ICore) (mode : FhMode) (s : FState) (y : Series)
     (cv : Option CvSpec) (up : Bool) (al : AlphaArg) :
